@@ -397,6 +397,36 @@ fn x<T>(r: Result<T, String>, f: impl FnOnce(T) -> String, fails: &mut Vec<Strin
     }
 }
 
+/// name-level views compared with what the property prescribes (`Spp`, `Stk` of the Lean driver):
+/// the multiset of user productions as (rule name, symbol names, precedence), and the named tokens in
+/// index order with precedence and `%avoid_insert` flag
+fn spec_views(g: &YaccGrammar<u32>) -> Result<(String, String), String> {
+    guarded(AssertUnwindSafe(|| {
+        let mut items = Vec::new();
+        for p in g.iter_pidxs() {
+            if p == g.start_prod() {
+                continue;
+            }
+            let syms: Vec<String> = g
+                .prod(p)
+                .iter()
+                .map(|s| match s {
+                    Symbol::Token(t) => format!("t{}", f_str(g.token_name(*t).unwrap_or(""))),
+                    Symbol::Rule(r) => format!("r{}", f_str(g.rule_name_str(*r))),
+                })
+                .collect();
+            items.push(format!("{} {} {} {}", f_str(g.rule_name_str(g.prod_to_rule(p))), syms.len(), syms.join(" "), f_prec(g.prod_precedence(p))));
+        }
+        items.sort();
+        let toks: Vec<String> = g
+            .iter_tidxs()
+            .filter(|t| *t != g.eof_token_idx())
+            .map(|t| format!("{} {} {}", f_str(g.token_name(t).unwrap_or("")), f_prec(g.token_precedence(t)), g.avoid_insert(t) as u8))
+            .collect();
+        (items.join(";"), toks.join(";"))
+    }))
+}
+
 /// every accessor on every index in range; a panic is recorded and shown as `X`
 fn dump(g: &YaccGrammar<u32>, spans: bool, fails: &mut Vec<String>) -> String {
     let nr = usize::from(g.rules_len());
@@ -644,6 +674,7 @@ fn run_case(out: &mut Out, kind: YKind, want: &OAst, text: &str, tag: &str, desc
     let mut fails: Vec<String> = Vec::new();
     let mut want = want.clone();
     let mut i_line = "err".to_string();
+    let mut views: Option<(String, String)> = None;
     match guarded(AssertUnwindSafe(|| ASTWithValidityInfo::new(yk(kind), text))) {
         Err(e) => fails.push(format!("parser-panic {}", e)),
         Ok(v) => {
@@ -671,6 +702,9 @@ fn run_case(out: &mut Out, kind: YKind, want: &OAst, text: &str, tag: &str, desc
                         }
                     }
                     i_line = dump(&g, true, &mut fails);
+                    if !matches!(kind, YKind::Eco) {
+                        views = spec_views(&g).ok();
+                    }
                     api_checks(&g, text, &want, &mut fails);
                     // the action kind of Original does not influence the grammar object
                     if let YKind::Orig(s) = kind {
@@ -695,6 +729,10 @@ fn run_case(out: &mut Out, kind: YKind, want: &OAst, text: &str, tag: &str, desc
     }
     out.case("C10", id, &encode(kind, &want, text));
     out.imp(id, "I", &i_line);
+    if let Some((pp, tk)) = &views {
+        out.imp(id, "Ipp", pp);
+        out.imp(id, "Itk", tk);
+    }
     let known: Vec<String> = fails.iter().filter(|f| f.starts_with("action-span-shifted-by-leading-whitespace")).cloned().collect();
     fails.retain(|f| !f.starts_with("action-span-shifted-by-leading-whitespace"));
     if !known.is_empty() {
